@@ -5,7 +5,8 @@
   token sequence the printer's output must scan to, and the rule table it denotes.
   Used by Props/C10.lean to state the round trip `load (pretty g) = denote g`.
 
-    pretty  : every token followed by one blank; doc comments on lines of their own
+    pretty  : every token followed by one blank; doc comments on lines of their own, one
+              blank between the marker and the line
     tokens  : kinds and values of the tokens of `pretty` (starts are whatever the scanner says)
     denote  : the `Pest.Expr` trees python-pest is to build — operator precedence (`~` binds
               tighter than `|`), n-ary `seq`/`choice` for the right-nested chains, prefix
@@ -152,7 +153,10 @@ def spell : KV → Text
 /-- every token followed by one blank -/
 def spellAll (kvs : List KV) : Text := (kvs.map fun kv => spell kv ++ [32]).flatten
 
-def docLine (m : Text) (line : Text) : Text := m ++ line ++ [10]
+/-- a doc line as printed: marker, the separating blank (always written: it belongs to the
+    marker, `"///" ~ space? ~ inner_doc`, so a line that itself starts with a blank survives
+    re-reading), the line, a line feed -/
+def docLine (m : Text) (line : Text) : Text := m ++ 32 :: line ++ [10]
 
 def SRule.pretty (r : SRule) : Text :=
   (r.docs.map (docLine sRDOC)).flatten ++
@@ -247,6 +251,12 @@ def IsTagName (t : Text) : Prop :=
 
 /-- a doc line: no line break inside, and no `\r` at its end (it would pair with the `\n`) -/
 def IsDocLine (l : Text) : Prop := findNewline (l ++ [10]) = some l.length
+
+/-- the optional blank between a doc marker and the line `l` (`space?` of `grammar_doc` /
+    `line_doc`: it belongs to the marker): a blank, a tab, or nothing — nothing only if `l` does
+    not itself start with a blank or a tab (which would then be read as the marker's) -/
+def DocSp (sp l : Text) : Prop :=
+  sp = [32] ∨ sp = [9] ∨ (sp = [] ∧ l.head? ≠ some 32 ∧ l.head? ≠ some 9)
 
 def WFPost : Post → Prop
   | .exact n | .min n | .max n => n ≤ 4294967295
